@@ -176,8 +176,14 @@ def h_history(sx, cfg):
         vd = None if nv == 1 else list(dims[:nv])
         return df.Field(mesh, nvdim=nv, value=vals.copy(), valid=valid.copy(), vdims=vd, unit="T")
 
-    obj = build()
+    try:
+        obj = build()
+    except (ValueError, TypeError) as ex:
+        # pmin < pmax in every direction, lattice boxes as subregions: a valid object
+        sx.check("valid-object-accepted", False, exc=f"{type(ex).__name__}: {str(ex)[:200]}")
+        return
     st = Box(pmin, pmax, n, units, {k: (lo, hi) for k, (lo, hi, _, _) in boxes.items()})
+    earlier = []  # objects left behind by copying steps: later steps on the copies must not reach them
     for i, spec in enumerate(cfg["steps"]):
         call, update, ok = _draw_step(sx, spec, i, nd, dims, st)
         tag = f"step{i}-{spec['kind']}:"
@@ -194,7 +200,11 @@ def h_history(sx, cfg):
                 check_all(sx, [(n_ + ("-after-refusal-inplace" if form else "-after-refusal-copy"), cnd) for n_, cnd in _state_checks(sx, tag, kindobj, obj, st, dims)])
             return
         new = update(st)
-        cp = call(obj, False)
+        try:
+            cp = call(obj, False)
+        except (ValueError, TypeError) as ex:
+            sx.check(tag + "legal-step-accepted", False, exc=f"{type(ex).__name__}: {str(ex)[:200]}")
+            return
         # copying form: result is the image, the original is untouched
         check_all(sx, [(n_ + "-copy", cnd) for n_, cnd in _state_checks(sx, tag, kindobj, cp, new, dims)])
         check_all(sx, [(n_ + "-original-untouched", cnd) for n_, cnd in _state_checks(sx, tag, kindobj, obj, st, dims)])
@@ -205,8 +215,11 @@ def h_history(sx, cfg):
             check_all(sx, [(n_ + "-inplace", cnd) for n_, cnd in _state_checks(sx, tag, kindobj, obj, new, dims)])
             check_all(sx, _same(sx, kindobj, obj, cp, tag + "inplace==copy"))
         else:
+            earlier.append((i, obj, st))
             obj = cp
         st = new
+    for i, old, old_st in earlier:
+        check_all(sx, [(n_ + "-still-untouched-at-the-end", cnd) for n_, cnd in _state_checks(sx, f"step{i}-original:", kindobj, old, old_st, dims)])
 
 
 def h_malformed(sx, cfg):
@@ -236,6 +249,9 @@ def h_malformed(sx, cfg):
         cases += [
             ("translate-wrong-length", lambda ip: obj.translate((x, x, x), inplace=ip), ValueError),
             ("translate-wrong-type", lambda ip: obj.translate("ab", inplace=ip), TypeError),
+            ("translate-nested-columns", lambda ip: obj.translate([[1.0], [2.0]], inplace=ip), (ValueError, TypeError)),
+            ("translate-nested-row", lambda ip: obj.translate([[1.0, 2.0]], inplace=ip), (ValueError, TypeError)),
+            ("translate-2d-array", lambda ip: obj.translate(np.ones((2, 1)), inplace=ip), (ValueError, TypeError)),
             ("scale-wrong-length", lambda ip: obj.scale((x, x, x), inplace=ip), ValueError),
             ("scale-wrong-type", lambda ip: obj.scale("a", inplace=ip), TypeError),
             ("scale-bad-reference-length", lambda ip: obj.scale(2.0, reference_point=(x,), inplace=ip), ValueError),
@@ -325,6 +341,11 @@ def tasks(tier):
                 t.append(dict(harness="h_history", cfg=dict(obj="mesh", n=list(shapes[nd]), steps=[dict(s1, inplace=ip)], subregions="none")))
         for q, s2 in enumerate(singles if not quick else singles[::2]):
             t.append(dict(harness="h_history", cfg=dict(obj="mesh", n=list(shapes[nd]), steps=[dict(singles[1], inplace=True), dict(s2, inplace=bool(q % 2))],
+                                                        subregions="none")))
+    # a copying step followed by an in-place quarter turn of the copy (cell counts differ along the two axes): the original stays
+    for nd in (2, 3):
+        for first in (dict(kind="translate", **{"as": "list"}), dict(kind="scale", concrete=2)):
+            t.append(dict(harness="h_history", cfg=dict(obj="mesh", n=list(shapes[nd]), steps=[dict(first, inplace=False), dict(kind="rotate", a=0, b=nd - 1, k=1, inplace=True)],
                                                         subregions="none")))
     # fields: rotations only (the only transformation a field offers), single and double
     for nd in (2, 3):
